@@ -374,7 +374,7 @@ impl Check for C07 {
         (v, info)
     }
     fn rule(&self) -> String {
-        "latencies of authentication, discovery, filter, strategy from {0, 1, 15999, 16000, 16001, 31999..33000, 48001, random up to 80 s}; Login Acknowledged / Client Information delayed by 0..50 s (or Client Information never sent); per-keep-alive echo policy (prompt, delayed by 0..15995 ms, never, wrong id, duplicate, previous id), unsolicited echoes at random instants; whole-frame delivery. non-trivial = at least two Keep Alives and at least one adapter latency > 0; distinct = distinct case".into()
+        "latencies of authentication, discovery, filter, strategy from {0, 1, 15999, 16000, 16001, 31999..33000, 48001, random up to 80 s}; Login Acknowledged / Client Information delayed by 0..50 s (or Client Information never sent); per-keep-alive echo policy (prompt, delayed by 0..15995 ms, never, wrong id, duplicate, previous id), unsolicited echoes at random instants; whole-frame delivery; second run with the terminal packet's write pending for 1-50 ms, third run with one Keep Alive's write pending for 4-50 ms or accepted in two parts (same packets and outcome required). non-trivial = at least two Keep Alives and at least one adapter latency > 0; distinct = distinct case".into()
     }
     fn assumptions(&self) -> Vec<String> {
         vec![
